@@ -9,6 +9,7 @@ import (
 	"io"
 	"net/http"
 	"net/http/httptest"
+	"net/url"
 	"strings"
 	"sync"
 	"time"
@@ -345,4 +346,12 @@ func toDriver(v chsql.Value, typ string) (driver.Value, error) {
 		return out, nil
 	}
 	return nil, fmt.Errorf("c13: cannot convert %T (%s)", v, typ)
+}
+
+func qs(kv ...string) string {
+	v := url.Values{}
+	for i := 0; i+1 < len(kv); i += 2 {
+		v.Add(kv[i], kv[i+1])
+	}
+	return v.Encode()
 }
